@@ -131,11 +131,32 @@ TEMPLATES["shadowing"] = dict(
 
 
 class ClosureModel(Model):
+    """Templates are AST programs.  Every template also exists as `<name>@fn`: the same prelude, history and observers executed inside one
+    function body (classes stay at module level), so that every variable is a local of a running function instead of a module variable."""
     name = "closures"
     T = TEMPLATES
+    FN_VARIANTS = True
 
     def templates(self, tier):
-        return list(self.T)
+        base = list(self.T)
+        return base + ([t + "@fn" for t in base] if self.FN_VARIANTS else [])
+
+    def depth_of(self, tpl, depth):
+        return depth if "@" not in tpl else max(2, depth - 1)
+
+    @staticmethod
+    def base(tpl):
+        return tpl.split("@")[0]
+
+    def tp(self, tpl):
+        return self.T[self.base(tpl)]
+
+    def wrap(self, tpl, stmts):
+        if "@fn" not in tpl:
+            return list(stmts)
+        mod = [x for x in stmts if x[0] == "class"]
+        body = [x for x in stmts if x[0] != "class"]
+        return mod + [asg("runner9", fn([], None, body)), ("expr", call("runner9"))]
 
     def init(self, tpl):
         return {"hist": []}
@@ -144,24 +165,24 @@ class ClosureModel(Model):
         return {"hist": list(st["hist"])}
 
     def _stmts(self, tpl, op, k):
-        o = self.T[tpl]["ops"][op]
+        o = self.tp(tpl)["ops"][op]
         return o(k) if callable(o) else [o]
 
     def _run(self, tpl, hist, extra=()):
-        t = self.T[tpl]
+        t = self.tp(tpl)
         ast = list(t["prelude"])
         for k, i in enumerate(hist):
             ast += self._stmts(tpl, i, k)
         ast += list(extra)
         it = refint.Interp()
-        ok, failure = it.run(ast)
+        ok, failure = it.run(self.wrap(tpl, ast))
         return it, ok
 
     def canon(self, tpl, st):
         return self.observed(tpl, st) + self.model_identity(tpl, st)
 
     def observed(self, tpl, st):
-        t = self.T[tpl]
+        t = self.tp(tpl)
         it, ok = self._run(tpl, st["hist"], [("print", o) for o in t["observers"]])
         n = len(t["observers"])
         return tuple(it.out[-n:])
@@ -169,11 +190,11 @@ class ClosureModel(Model):
     def model_identity(self, tpl, st):
         """identity relations that only the model can see (no expression of the language is needed or assumed): which of the listed
         variable.field paths hold the very same container.  They refine state identity, so that 'shares the list' and 'holds an
-        equal list' are different states and both get expanded."""
-        paths = self.T[tpl].get("same_container")
+        equal list' are different states and both get expanded.  (Computed on the module-level rendering.)"""
+        paths = self.tp(tpl).get("same_container")
         if not paths:
             return ()
-        it, ok = self._run(tpl, st["hist"])
+        it, ok = self._run(self.base(tpl), st["hist"])
 
         def resolve(path):
             v = it.frames[0].scopes[0][path[0]].v
@@ -183,12 +204,18 @@ class ClosureModel(Model):
         vals = [resolve(p) for p in paths]
         return tuple(vals[i] is vals[j] for i in range(len(vals)) for j in range(i + 1, len(vals)))
 
+    def _text(self, tpl, stmts):
+        return refint.pblock(stmts, 1) if "@fn" in tpl else refint.program(stmts)
+
     def final_observation(self, tpl, st):
-        t = self.T[tpl]
-        return refint.program([("print", o) for o in t["observers"]]), self.observed(tpl, st)
+        t = self.tp(tpl)
+        return self._text(tpl, [("print", o) for o in t["observers"]]), self.observed(tpl, st)
+
+    def epilogue(self, tpl):
+        return "}\nrunner9()\n" if "@fn" in tpl else ""
 
     def ops(self, tpl, st):
-        t = self.T[tpl]
+        t = self.tp(tpl)
         out = list(range(len(t["ops"])))
         if "cap_len" in t:
             name, cap = t["cap_len"]
@@ -204,15 +231,18 @@ class ClosureModel(Model):
         return after.out[len(before.out):], not ok
 
     def prelude(self, tpl):
-        return refint.program(self.T[tpl]["prelude"])
+        pre = self.tp(tpl)["prelude"]
+        if "@fn" not in tpl:
+            return refint.program(pre)
+        return refint.program([x for x in pre if x[0] == "class"]) + "runner9 = fn() {\n" + refint.pblock([x for x in pre if x[0] != "class"], 1)
 
     def prelude_obs(self, tpl):
         it = refint.Interp()
-        it.run(self.T[tpl]["prelude"])
+        it.run(self.wrap(tpl, self.tp(tpl)["prelude"]))
         return it.out
 
     def op_src(self, tpl, op, k):
-        return refint.program(self._stmts(tpl, op, k))
+        return self._text(tpl, self._stmts(tpl, op, k))
 
     def op_name(self, tpl, op):
         return refint.program(self._stmts(tpl, op, 0)).strip().split("\n")[0][:60]
@@ -347,7 +377,8 @@ class C07(EHistCheck):
             "shadow of the captured name (so that inner closures created afterwards must bind the closure's own local); a third family in which "
             "the closure returns an inner closure (reading / modifying the name, created in a block, two levels deep) that is called only after "
             "its creator has returned, from two executions of the creator, interleaved; "
-            "is_closure() is observed in every case.")
+            "is_closure() is observed in every case.  Every template is also explored (one level shallower) with prelude, history and observers executed "
+            "inside one function body, so that all variables are locals of a running function.")
     assumptions = ["the reference interpreter with explicit cells is the model", "functions are never printed"]
 
     def layers(self, tier):
